@@ -24,6 +24,7 @@
 EXTENDS Integers, Sequences, TLC, Bytes, BigNat, Vint
 
 CONSTANT LongLens          \* sequence of extra (long) lengths used for vec<u8> / string representatives
+ZstMax == 1024             \* largest element count replayed for collections of zero-sized elements
 
 IsIntTag(tag) == tag \in {"u8", "u16", "u32", "u64", "u128"}
 IntWidth(tag) == CASE tag = "u8" -> 1 [] tag = "u16" -> 2 [] tag = "u32" -> 4 [] tag = "u64" -> 8 [] tag = "u128" -> 16
@@ -165,6 +166,7 @@ Encode(ty, v) ==
 (*   "short": a length prefix announces more elements than the remaining   *)
 (*            input can hold;  "big": a length prefix >= 2^20;             *)
 (*   "dup":   a map input repeats a key with different values              *)
+(*   "zst-huge": more than ZstMax elements of a zero-sized type announced  *)
 (* strict = FALSE skips the validity checks of bool bytes and UTF-8 (used  *)
 (* only to find out whether an invalid input is ALSO too short)            *)
 (***************************************************************************)
@@ -200,7 +202,9 @@ DecPrefixed(ty, bs, p, strict) ==
            cnt == IF FitsInt(l.v) THEN FromLE(l.v) ELSE -1
        IN IF ety[1] = "u8" /\ cnt >= 0                                       \* (shortcut: a byte per element)
             THEN IF cnt <= r THEN DOk([i \in 1..cnt |-> <<bs[l.p + i]>>], l.p + cnt, fl) ELSE DErr("eof", fl)
-            ELSE IF cnt < 0 /\ ms = 0 THEN Assert(FALSE, "unbounded collection of zero-sized elements")
+            \* elements that encode to zero bytes: every count can be satisfied by any input, the decoder
+            \* iterates count times; counts above ZstMax are outside the generated space (flag "zst-huge")
+            ELSE IF ms = 0 /\ (cnt < 0 \/ cnt > ZstMax) THEN DErr("eof", fl \cup {"zst-huge"})
             ELSE DecMany(ty, 1, cnt, bs, l.p, strict, <<>>, fl)
 
 Dec(ty, bs, p, strict) ==
